@@ -2,6 +2,8 @@ package main
 
 import (
 	"bytes"
+	"net"
+	"sync"
 	"context"
 	"encoding/base64"
 	"fmt"
@@ -15,6 +17,9 @@ import (
 
 	"google.golang.org/grpc"
 	"google.golang.org/grpc/codes"
+	"google.golang.org/grpc/reflection"
+	rpb "google.golang.org/grpc/reflection/grpc_reflection_v1alpha"
+	"google.golang.org/protobuf/reflect/protoreflect"
 	"google.golang.org/grpc/status"
 	"google.golang.org/protobuf/encoding/protodelim"
 	"google.golang.org/protobuf/encoding/protojson"
@@ -352,7 +357,7 @@ func runC09(c *Ctx) {
 				q.body = mutate(enc)
 			}
 			if rnd.Intn(3) == 0 {
-				add("Accept", pick([]string{"*/*", "application/json;q=0.5, application/protobuf", ";;;", "a/b;q=x", "application/json;q=1.5", strings.Repeat("a/b,", 200), "", "application/x-verif"}))
+				add("Accept", pick([]string{"*/*", "application/json;q=0.5, application/protobuf", ";;;", "a/b;q=x", "application/json;q=1.5", strings.Repeat("a/b,", 200), "", "application/x-verif", "application/json;q=", "application/protobuf; q=", "*/*;q=,application/json", "a/b;q"}))
 			}
 			if o.stream && rnd.Intn(3) == 0 { // a well-formed gzip body on a streaming method
 				add("Content-Encoding", "gzip")
@@ -368,7 +373,7 @@ func runC09(c *Ctx) {
 				}
 			}
 			if rnd.Intn(4) == 0 {
-				add("Accept-Encoding", pick([]string{"gzip", "identity", "*;q=0", "gzip;q=abc", "br, gzip"}))
+				add("Accept-Encoding", pick([]string{"gzip", "identity", "*;q=0", "gzip;q=abc", "br, gzip", "gzip;q=", "gzip; q", ";q="}))
 			}
 		case 1: // gRPC
 			q.entry = "grpc"
@@ -616,6 +621,7 @@ func runC09(c *Ctx) {
 			c.SpecFail("request", in, "no response within 4 s (the serving goroutine is still running)", "control returns", "C09/hang/"+q.entry, "a request wedges the serving goroutine")
 		}
 	}
+	c09ProxyIdleClient(c)
 }
 
 func c09PanicKey(pn interface{}) string {
@@ -634,4 +640,105 @@ func c09PanicKey(pn interface{}) string {
 		s = s[:40]
 	}
 	return strings.ReplaceAll(s, " ", "-")
+}
+
+// blockingBody delivers data, then blocks in Read until it is closed (a client that keeps its
+// send side open and idle).
+type blockingBody struct {
+	data   []byte
+	closed chan struct{}
+	once   sync.Once
+}
+
+func (b *blockingBody) Read(p []byte) (int, error) {
+	if len(b.data) > 0 {
+		n := copy(p, b.data)
+		b.data = b.data[n:]
+		return n, nil
+	}
+	<-b.closed
+	return 0, io.ErrClosedPipe
+}
+func (b *blockingBody) Close() error { b.once.Do(func() { close(b.closed) }); return nil }
+
+// c09ProxyIdleClient: a client-streaming / bidi call to a PROXIED method whose client sent one
+// message and keeps its send side open while the backend ends the call (with an error, or OK):
+// serving must return control — with the backend's status when that is an error.
+func c09ProxyIdleClient(c *Ctx) {
+	bk := &c10Backend{seen: map[string]*c10Seen{}}
+	fixtureDeferRegistration = true
+	backFx, err := NewFixture(c10Specs(bk), nil)
+	fixtureDeferRegistration = false
+	if err != nil {
+		c.Note("c09 proxy fixture: " + err.Error())
+		return
+	}
+	gs := grpc.NewServer()
+	for _, sd := range backFx.ServiceDescs() {
+		gs.RegisterService(sd, nil)
+	}
+	rpb.RegisterServerReflectionServer(gs, reflection.NewServer(reflection.ServerOptions{Services: gs, DescriptorResolver: backFx.Files}))
+	blis, _ := net.Listen("tcp", "127.0.0.1:0")
+	go gs.Serve(blis) //nolint
+	defer gs.Stop()
+	bcc, _ := grpc.NewClient(blis.Addr().String(), grpcInsecure())
+	defer bcc.Close()
+	mux, err := larking.NewMux()
+	if err != nil {
+		return
+	}
+	ctx, cancel := context.WithTimeout(context.Background(), 5*time.Second)
+	err = mux.RegisterConn(ctx, bcc)
+	cancel()
+	if err != nil {
+		c.Note("c09 proxy RegisterConn: " + err.Error())
+		return
+	}
+	m := backFx.NewMsg("Req")
+	m.Set(m.Descriptor().Fields().ByName("name"), protoreflect.ValueOfString("idle"))
+	enc, _ := proto.Marshal(m)
+	id := 0
+	for _, method := range []string{"CS", "BD"} {
+		for _, tr := range []string{"application/grpc+proto", "application/grpc-web+proto"} {
+			for _, code := range []int{12, 9} {
+				id++
+				body := &blockingBody{data: grpcFrame(0, enc), closed: make(chan struct{})}
+				r := httptest.NewRequest("POST", "/"+fxPkg+".Back/"+method, body)
+				r.ContentLength = -1
+				r.Header.Set("Content-Type", tr)
+				if tr == "application/grpc+proto" {
+					r.ProtoMajor, r.ProtoMinor = 2, 0
+					r.Header.Set("Te", "trailers")
+				}
+				r.Header.Set("x-c10-id", fmt.Sprint("c09idle", id))
+				r.Header.Set("x-c10-script", fmt.Sprintf("0,%d,-1,1", code)) // the backend fails at once, without reading on
+				in := fmt.Sprintf("proxied %s over %s: the client sent one message and keeps its send side open; the backend fails with code %d", method, tr, code)
+				c.Eval("proxy-idle-client", in, true)
+				type served struct {
+					rec *httptest.ResponseRecorder
+					pn  interface{}
+				}
+				done := make(chan served, 1)
+				go func() { rec, pn := serveOn(mux, r); done <- served{rec, pn} }()
+				select {
+				case sv := <-done:
+					st := sv.rec.Header().Get("Grpc-Status")
+					if st == "" {
+						st = sv.rec.Result().Trailer.Get("Grpc-Status")
+					}
+					if i := strings.Index(sv.rec.Body.String(), "grpc-status: "); i >= 0 {
+						st = strings.SplitN(sv.rec.Body.String()[i+13:], "\r", 2)[0]
+					}
+					if sv.pn != nil {
+						c.SpecFail("proxy-idle-client", in, fmt.Sprint("panic: ", sv.pn), "the backend's status", "C09/proxy/idle-client-panic", "serving panics")
+					} else if st != fmt.Sprint(code) {
+						c.SpecFail("proxy-idle-client", in, "grpc-status "+st, fmt.Sprint("grpc-status ", code), "C09/proxy/idle-client-status", "the backend's error does not reach a client that keeps its stream open")
+					}
+				case <-time.After(4 * time.Second):
+					c.SpecFail("proxy-idle-client", in, "serving has not returned after 4 s", "control returns with the backend's status", "C09/proxy/idle-client-wedged", "a proxied call whose backend has ended wedges while the client's send side stays open")
+					body.Close() //nolint
+				}
+			}
+		}
+	}
 }
